@@ -57,7 +57,7 @@ TIERS = {
     "thorough": {
         "ops": [o[0] for o in lb.OPS], "depth3_ops": ["add"],
         "tlc_bin": "BinopSlot_deep", "tlc_cmp": "BinopSlotCmp_thorough", "strict": True,
-        "cmp": [(all64(), [], TINY), (SMALL, SMALL, TINY)], "complete_ops": [o[0] for o in lb.OPS],
+        "cmp": [(all64(), [], TINY), (SMALL, SMALL, TINY)], "complete_ops": [o[0] for o in lb.OPS[:8]],
         "cmp_modules": 12,
     },
 }
@@ -192,7 +192,7 @@ def run(tier, seed):
     phase = {}
 
     def timed_build():
-        r = core.build_many(specs, None, 8 if tier == "quick" else 12)
+        r = core.build_many(specs, None, 8 if tier == "quick" else 12, timeout=3000)
         phase["builds_done_at"] = round(time.time() - t0, 1)
         return r
     fut_build = pool.submit(timed_build)
@@ -322,6 +322,8 @@ def run(tier, seed):
     builds = {b.name: b for b in fut_build.result()}
     pool.shutdown()
     for b in builds.values():
+        if not b.ok and b.stage == "timeout":
+            core.die("build of %s timed out (machine overloaded?)" % b.name)
         if not b.ok:
             rep.disagree({"part": "build", "module": b.name, "stage": b.stage}, "build-failed", {"errors": (b.errors or "")[-2000:]})
     okmods = {n for n, b in builds.items() if b.ok}
